@@ -1189,6 +1189,34 @@ def check_C12(ctx):
         cleanup()
 
 
+def extra_C17(ctx):
+    """C17's share of this module (runs after whichever C17 check is registered): a load that
+    raises — unreadable file, wrong extension, ill-formed content refused half-way — leaves the
+    manager as C17 says.  The witnesses of F16 / F17 run first.  The sessions use the dump ops, so
+    they are replayed on `ddvdump`."""
+    saved = ctx.driver
+    ctx.flush_model()
+    ctx.driver = 'ddvdump'
+    build_driver()
+    try:
+        refused_files(ctx)
+        witness_failed_loads(ctx)
+        n = 0
+        want = 4 if ctx.tier == 'quick' else 60
+        while n < want and ctx.time_left() > 5:
+            rejected_content(ctx)
+            n += 1
+        ctx.notes.append(f'failing loads: {n} rounds of ill-formed content (pickle and JSON)')
+        ctx.flush_model()
+    finally:
+        cleanup()
+        ctx.driver = saved
+
+
+EXTRAS = {'C17': [extra_C17]}
+EXTRA_DRIVERS = ['ddvdump']
+
+
 REGISTRY = {
     'C12': (check_C12,
             'tuples of 1-3 functions of 3 (sampled 4) variables, roots as list/dict/None, pickle + '
